@@ -379,6 +379,10 @@ fn iretq_case(c: &(u32, u64), obs: &mut Obs) -> CaseResult {
     ensure_eq!(core::ptr::addr_of!(f.cpu_flags) as usize - base, 16usize, "offset of cpu_flags");
     ensure_eq!(core::ptr::addr_of!(f.stack_pointer) as usize - base, 24usize, "offset of stack_pointer");
     ensure_eq!(core::ptr::addr_of!(f.stack_segment) as usize - base, 32usize, "offset of stack_segment");
+    // InterruptStackFrame::new wraps the same value (Deref gives the fields back)
+    let wrapped = InterruptStackFrame::new(f.instruction_pointer, f.code_segment, f.cpu_flags, f.stack_pointer, f.stack_segment);
+    ensure_eq!((wrapped.instruction_pointer.as_u64(), wrapped.code_segment.0, wrapped.cpu_flags.bits(), wrapped.stack_pointer.as_u64(), wrapped.stack_segment.0), (f.instruction_pointer.as_u64(), cs, fl, rsp, ss), "InterruptStackFrame::new fields");
+    ensure_eq!(core::mem::size_of::<InterruptStackFrame>(), 40usize, "size of InterruptStackFrame");
     umh::PANIC_ON_UNEXPECTED.store(false, std::sync::atomic::Ordering::Relaxed);
     let a = deliver::call_noreturn(do_iretq, &f as *const _ as u64);
     umh::PANIC_ON_UNEXPECTED.store(true, std::sync::atomic::Ordering::Relaxed);
